@@ -237,7 +237,10 @@ var c35Edits = []c35Edit{
 		}
 		f := vlib.Pick(r, c)
 		f.Tail += "message Unclosed {\n"
-		s.undo = append(s.undo, func() string { f.Tail = strings.Replace(f.Tail, "message Unclosed {\n", "", 1); return "repair-syntax-error" })
+		s.undo = append(s.undo, func() string {
+			f.Tail = strings.Replace(f.Tail, "message Unclosed {\n", "", 1)
+			return "repair-syntax-error"
+		})
 		return true
 	}},
 	{"introduce-duplicate-tag", func(s *c35State, r *vlib.RNG) bool {
@@ -449,7 +452,7 @@ func TestC35(t *testing.T) {
 		"the Workspace object of queries.Link is reused across steps (its key is compared by identity), as a long-lived client would",
 	})
 	ctx := context.Background()
-	n := r.N(160, 2500)
+	n := r.N(160, 6000)
 	editCount := map[string]int64{}
 	r.Par(n, func(i int) {
 		id := fmt.Sprintf("hist/%d", i)
@@ -513,7 +516,7 @@ func TestC35(t *testing.T) {
 				// Is the incremental result one a brand-new executor can give? Batch
 				// runs are not deterministic on this tree (C36); a mismatch counts
 				// only if no fresh run at the same parallelism reproduces it.
-				for k := 0; k < 30 && what != ""; k++ {
+				for k := 0; k < 200 && what != ""; k++ {
 					again := c35Observe(newExpEnv(st.files, par).runLink(ctx, st.targets), st.targets)
 					if w2, _ := c35Compare(inc, again, st.targets); w2 == "" || w2 == "tie-order" {
 						r.Class("mismatch-reproduced-by-another-fresh-run (batch nondeterminism; see C36)")
@@ -539,7 +542,7 @@ func TestC35(t *testing.T) {
 				for k, v := range detail {
 					wit[k] = v
 				}
-				wit["fresh_runs_tried"] = 31
+				wit["fresh_runs_tried"] = 201
 				r.Violation("incremental.differs-from-batch", "after "+editKind(name)+": "+what, id, wit)
 				return // the long-lived state is off; later steps would repeat the finding
 			}
